@@ -23,6 +23,8 @@ pub struct PassState {
     pub max_work: u64,
     /// most parse attempts per byte (x1000) in any file
     pub max_parse_ratio: u64,
+    /// most symbol lookup steps in one pass
+    pub max_lookups: u64,
     /// Some("periodic(p)") / Some("divergent") once a verdict was reached
     pub verdict: Option<String>,
 }
@@ -65,7 +67,22 @@ pub const PARSE_BUDGET_BASE: u64 = 200_000;
 pub const PARSE_BUDGET_PER_BYTE: u64 = 2_000;
 pub const PARSE_BUDGET_MARKER: &str = "VERIF-PARSE-BUDGET";
 
+/// A third logical clock inside a pass: steps of symbol lookups (one per scope a lookup visits). It exists for the
+/// expansions that feed themselves AND slow down as they go: when scopes nest without end, every token costs more
+/// lookups than the one before, the token clock above hardly moves any more, and this one races.
+/// `max_lookup_steps_in_one_pass` in the C06 and C14 evidence is the most any workload needs; the budget is
+/// far above it.
+pub const LOOKUP_BUDGET: u64 = 50_000_000;
+pub const LOOKUP_BUDGET_MARKER: &str = "VERIF-LOOKUP-BUDGET";
+
 pub fn install() {
+    verif_hooks::set_lookup_budget(
+        std::env::var("VERIF_LOOKUP_BUDGET")
+            .ok()
+            .and_then(|v| v.parse().ok())
+            .unwrap_or(LOOKUP_BUDGET),
+    );
+    let _ = verif_hooks::take_max_lookups();
     if std::env::var("VERIF_PARSE_BUDGET").ok().as_deref() == Some("off") {
         mos_core::parser::verif_hooks::set_parse_budget(0, 0);
     } else {
@@ -121,6 +138,8 @@ pub fn uninstall() -> PassState {
         .map(|rc| rc.borrow().clone())
         .unwrap_or_default();
     st.max_parse_ratio = ratio;
+    st.max_lookups = verif_hooks::take_max_lookups();
+    verif_hooks::set_lookup_budget(0);
     st
 }
 
